@@ -115,7 +115,26 @@ impl Oplog {
     }
 
     pub fn last_op_time() -> u64 {
-        let mut f = get_log_file_read_mode(&Oplog::get_op_log_file_name());
+        let last_time = Oplog::last_op_time_from_file(&Oplog::get_op_log_file_name());
+        if last_time == 0 {
+            // The current file is empty right after a rotation, the newest record is then the
+            // last one of the newest rotated file
+            if let Some(newest) = get_op_log_entries_by_creation_date().first() {
+                let file_name = newest.file_name().into_string().unwrap();
+                if file_name.ends_with(".op") {
+                    return Oplog::last_op_time_from_file(&format!(
+                        "{}/{}",
+                        get_op_log_dir_name(),
+                        file_name
+                    ));
+                }
+            }
+        }
+        last_time
+    }
+
+    fn last_op_time_from_file(file_name: &String) -> u64 {
+        let mut f = get_log_file_read_mode(file_name);
         let total_size = f.metadata().unwrap().len();
         let size_as_u64 = OP_RECORD_SIZE as u64;
         // if the file is empty return 0 to avoid  attempt to subtract with overflow error
